@@ -287,3 +287,45 @@ def c09_text_options(e):
     if w > m.maximum or w < 1:
         return True
     return all(x <= w for x in cat.widths(cat.render_lines(c, mk(), w)))
+
+
+_SHRINK = ["hello wonderful world", "a\tbb\tc", "中文 wide 字", "x", "two\nlines here", "á́b zero"]
+
+
+@symx("C09-text-measure-after-inplace-ops", timeout=600, kind="P",
+      functions=["rich/text.py:Text.__rich_measure__", "rich/text.py:Text.right_crop", "rich/text.py:Text.set_length",
+                 "rich/text.py:Text.truncate", "rich/text.py:Text.expand_tabs", "rich/text.py:Text.pad"],
+      bounds="%d strings: the Text is measured (or not), then edited in place by ONE of right_crop(k), set_length(n), truncate(n, "
+             "pad / no pad, each overflow), expand_tabs(size), pad / pad_left / pad_right(k), rstrip - k, n, size solver-enumerated in "
+             "0..8 - and measured again: the measurement equals that of a fresh Text of the resulting string (widest word, widest line)"
+             % len(_SHRINK),
+      outside="sequences of several in-place edits (C09-text-measure-after-edit covers assignment and crop+append)")
+def c09_after_inplace(e):
+    s = _SHRINK[int(e.mk("string", 0, len(_SHRINK) - 1))]
+    op = int(e.mk("op", 0, 8))
+    k = int(e.mk("k", 0, 8))
+    c = cat.console()
+    t = Text(s)
+    if e.mkbool("measured_first"):
+        Measurement.get(c, t, 200)
+    if op == 0:
+        t.right_crop(k)
+    elif op == 1:
+        t.set_length(k)
+    elif op == 2:
+        t.truncate(k, pad=True)
+    elif op == 3:
+        t.truncate(k, overflow=["fold", "crop", "ellipsis"][k % 3])
+    elif op == 4:
+        t.expand_tabs(k + 1)
+    elif op == 5:
+        t.pad(k)
+    elif op == 6:
+        t.pad_left(k, "-")
+    elif op == 7:
+        t.pad_right(k)
+    else:
+        t.rstrip()
+    fresh = Measurement.get(c, Text(t.plain), 200)
+    got = Measurement.get(c, t, 200)
+    return tuple(got) == tuple(fresh)
